@@ -26,6 +26,7 @@ type waitCase struct {
 	lateBy   time.Duration // the holder sleeps this long before completing (0 = races with the waiters)
 	prop     string
 	holders2 bool // both holders complete (limit 2)
+	noTimer  bool // queue kinds: MaxBacklogTimeout < 0, the waiter selects on a nil timer channel
 }
 
 // waitState is the ghost state shared by the threads of one execution.
@@ -160,10 +161,14 @@ func waitScenario(cs waitCase) *mc.Scenario {
 	name := fmt.Sprintf("%s/wake/%s", cs.prop, cs.kind)
 	return &mc.Scenario{
 		Name:   name,
-		Params: fmt.Sprintf("limit=%d waiters=%d holder-outcome=%s late=%v both-holders=%v", cs.limit, cs.waiters, outcomeNames[cs.outcome], cs.lateBy, cs.holders2),
+		Params: fmt.Sprintf("limit=%d waiters=%d holder-outcome=%s late=%v both-holders=%v no-backlog-timeout=%v", cs.limit, cs.waiters, outcomeNames[cs.outcome], cs.lateBy, cs.holders2, cs.noTimer),
 		Cfg:    vrt.Config{Events: true, MaxSteps: 4000},
 		Body: func(x *mc.Exec) {
-			st := buildStack(cs.kind, cs.limit, stackOpts{})
+			so := stackOpts{}
+			if cs.noTimer {
+				so.timeout = -1
+			}
+			st := buildStack(cs.kind, cs.limit, so)
 			ws := &waitState{st: st, inAcq: make([]bool, cs.waiters), granted: make([]bool, cs.waiters),
 				returned: make([]bool, cs.waiters), tid: make([]int, cs.waiters), retClock: make([]int64, cs.waiters)}
 			x.Aux = ws
@@ -284,6 +289,11 @@ func runC10(c *Ctx) {
 			// limit 2, both holders release, two waiters: one preemption
 			c.Explore(waitScenario(waitCase{prop: "C10", kind: kind, limit: 2, waiters: 2, outcome: 2, holders2: true}), mc.Options{PreemptBound: 1})
 		}
+	}
+	// queue limiter without a backlog timeout: nothing but the hand-off can ever wake the waiter
+	for _, kind := range []string{"queue-fifo", "queue-lifo-evict"} {
+		c.Explore(waitScenario(waitCase{prop: "C10", kind: kind, limit: 1, waiters: 2, outcome: 1, noTimer: true}), opt)
+		c.Explore(waitScenario(waitCase{prop: "C10", kind: kind, limit: 1, waiters: 1, outcome: 0, noTimer: true, lateBy: 60 * time.Millisecond}), opt)
 	}
 	// stale helpers: one poll period elapses before the release
 	c.Explore(waitScenario(waitCase{prop: "C10", kind: "blocking50", limit: 1, waiters: 1, outcome: 0, lateBy: 60 * time.Millisecond}), opt)
